@@ -163,6 +163,10 @@ impl Read for WatchClose {
 
             for ev in v.iter().take(r) {
                 if err_mask.bits() & ev.events != 0 {
+                    // our peer hung up, but what it sent before that is still there to be read
+                    if ev.data == 0 && Events::EPOLLIN.bits() & ev.events != 0 {
+                        break 'outer;
+                    }
                     return Err(io::Error::from(io::ErrorKind::BrokenPipe));
                 }
             }
